@@ -8,17 +8,19 @@ order of first appearance), sizes, shapes and values (all-zero / opaque token by
 (result kind, number of effects) and the aux-bias block of the phase gradient / optimizer runs.
 
 Oracle (implementation only): module= -> `rbm_am is module`, `rbm_ph is not module`, no shared storage, equal
-values; a write to one network leaves the other's parameters bit-identical; sizes path -> requested / defaulted
-shapes, all biases exactly zero, weights drawn; reinitialize -> shapes kept, every weight tensor changed, biases
-zero, all networks; fit without bases for complex / mixed -> ValueError, no callback event, parameters and
-torch RNG state unchanged; aux_bias of rbm_ph exactly 0 after real training with SGD, SGD+momentum, Adam, and the
+values, the MODULE's sizes even when the num_visible / num_hidden / num_aux arguments disagree; a write to one
+network leaves the other's parameters bit-identical; sizes path -> requested / defaulted shapes, all biases exactly
+zero, weights drawn; reinitialize (also after training, all parameters non-zero) -> shapes kept, every weight
+tensor changed, no stale trained value left (a bias is back at zero or redrawn), all networks, no object identity
+demanded; fit without bases for complex / mixed -> refused (any exception), no callback event, no optimizer
+constructed, parameters and torch RNG state unchanged; aux_bias of rbm_ph exactly 0 after real training with SGD, SGD+momentum, Adam, and the
 aux-bias block of every phase-gradient function exactly zero."""
 import copy, time
 import numpy as np
 
 RULE = ("histories of 6..14 (quick) / 10..24 (thorough) construction operations over the three state types x "
-        "{sizes given, sizes defaulted (None, and 0 for the BinaryRBM quirk), module given (incl. one module shared by "
-        "several states, wrong module class)}, nv 1..4, nh 0..5, na 0..3; a case is one history; non-trivial := it "
+        "{sizes given, sizes defaulted (None; explicit 0 only for PurificationRBM), module given (one module shared by "
+        "several states; size arguments agreeing or DISAGREEING with the module)}, nv 1..4, nh 0..5, na 0..3; a case is one history; non-trivial := it "
         "builds a two-network state from module= or sizes with nh != nv and then writes to one of its networks; "
         "plus fit-guard cases (3 kinds x bases given/absent x stop flag) and DensityMatrix training runs "
         "(3 optimizers x architectures)")
@@ -68,8 +70,11 @@ def canon(dump):
         return [nid, sizes, [[p, cells.setdefault(c if not isinstance(c, list) else tuple(c), len(cells)), sh,
                               (-1 if 0 in sh else v)] for p, c, sh, v in ps]]
     mods, states = dump
+    # the state's own num_visible / num_hidden / num_aux: reported by the implementation, and in the model they ARE
+    # the sizes of the amplitude network (Build.state_sizes)
     return [[net(m) for m in mods],
-            [[] if not s else [s[0], net(s[1]), [net(s[2][0])] if s[2] else []] for s in states]]
+            [[] if not s else [s[0], net(s[1]), [net(s[2][0])] if s[2] else [], list(s[3]) if len(s) > 3 else list(s[1][1][1:])]
+             for s in states]]
 
 
 def weights_of(T, rbm):
@@ -89,6 +94,52 @@ def ptrs(rbm):
     return {cell_id(p) for _, p in rbm.named_parameters()}
 
 
+def check_reinitialised(ctx, net, before, after, case):
+    """The statement: reinitialising REDRAWS ALL networks' parameters with unchanged shapes.  Demanded: same names
+    and shapes; every weight tensor differs from its previous value; no parameter keeps a stale trained value, i.e.
+    every parameter that was non-zero before is either back at its initial value (biases: zero) or differs from the
+    previous value.  Not demanded: object identity (in place or new Parameters), biases being exactly zero."""
+    import torch
+    ctx.require("reinitialize keeps names and shapes (%s)" % net,
+                [(n, t.shape) for n, t in after] == [(n, t.shape) for n, t in before], case)
+    ctx.require("reinitialize redraws every weight tensor (%s)" % net,
+                all(t.numel() == 0 or not torch.equal(t, t0) for (n, t), (_, t0) in zip(after, before) if n.startswith("weights")), case)
+    stale = [n for (n, t), (_, t0) in zip(after, before)
+             if t.numel() and bool((t0 != 0).any()) and t.shape == t0.shape and torch.equal(t, t0)]
+    ctx.require("reinitialize leaves no stale trained parameter value (%s)" % net, not stale, case, {"stale": stale})
+
+
+def reinit_cases(ctx):
+    """train -> reinitialize for the three state types x {sizes, module=}: all parameters (biases included) are
+    non-zero before, so a reinitialisation that keeps trained biases is visible."""
+    import torch
+    from qucumber.nn_states import PositiveWaveFunction, ComplexWaveFunction, DensityMatrix
+    from qucumber.rbm import BinaryRBM, PurificationRBM
+    CLS = [PositiveWaveFunction, ComplexWaveFunction, DensityMatrix]
+    for k in range(3):
+        for nv, nh, na in ((2, 3, 1), (3, 2, 2)):
+            for via_module in (False, True):
+                ctx.torch_seed()
+                if via_module:
+                    m = BinaryRBM(nv, nh, gpu=False) if k < 2 else PurificationRBM(nv, nh, na, gpu=False)
+                    s = CLS[k](nv, module=m, gpu=False)
+                else:
+                    s = CLS[k](*((nv, nh) if k < 2 else (nv, nh, na)), gpu=False)
+                case = {"reinit": CLS[k].__name__, "nv": nv, "nh": nh, "na": na, "module": via_module}
+                ctx.case(case, nontrivial=True)
+                for rounds in range(2):
+                    for net in s.networks:                  # stand-in for training: every parameter becomes non-zero
+                        for _, p in getattr(s, net).named_parameters():
+                            p.data.copy_(torch.tensor(ctx.rng.normal(size=tuple(p.shape)) + 0.3).abs() + 0.05)
+                    before = {net: snap(getattr(s, net)) for net in s.networks}
+                    ok, _ = ctx.call("reinitialize_parameters", case, s.reinitialize_parameters)
+                    if not ok:
+                        break
+                    for net in s.networks:
+                        check_reinitialised(ctx, net, before[net], snap(getattr(s, net)), case)
+                    ctx.count("train_then_reinitialize")
+
+
 def one_history(ctx, hid, nops):
     import torch
     from qucumber.nn_states import PositiveWaveFunction, ComplexWaveFunction, DensityMatrix
@@ -102,7 +153,8 @@ def one_history(ctx, hid, nops):
 
     def dump():
         return [[real_net(T, m) for m in mods],
-                [[] if s is None else [CLS.index(type(s)), real_net(T, s.rbm_am), [real_net(T, s.rbm_ph)] if len(s.networks) > 1 else []]
+                [[] if s is None else [CLS.index(type(s)), real_net(T, s.rbm_am), [real_net(T, s.rbm_ph)] if len(s.networks) > 1 else [],
+                                       [int(s.num_visible), int(s.num_hidden), int(s.num_aux) if CLS.index(type(s)) == 2 else 0]]
                  for s in states]]
 
     def opt(x):
@@ -116,6 +168,8 @@ def one_history(ctx, hid, nops):
             nv = int(rng.integers(1, 5))
             nh = [None, 0, int(rng.integers(1, 6))][int(rng.choice(3, p=[0.2, 0.15, 0.65]))]
             na = [None, 0, int(rng.integers(1, 4))][int(rng.choice(3, p=[0.2, 0.1, 0.7]))]
+            if kind == 0 and nh == 0:                             # BinaryRBM(nv, 0): outside what the property fixes
+                nh = None
             m = BinaryRBM(nv, nh, gpu=False) if kind == 0 else PurificationRBM(nv, nh, na, gpu=False)
             for _, p in m.named_parameters():                     # non-zero biases: a "trained" module
                 if p.numel():
@@ -138,6 +192,8 @@ def one_history(ctx, hid, nops):
             nv = int(rng.integers(1, 5))
             nh = [None, 0, int(rng.integers(1, 6))][int(rng.choice(3, p=[0.25, 0.15, 0.6]))]
             na = [None, 0, int(rng.integers(1, 4))][int(rng.choice(3, p=[0.25, 0.1, 0.65]))]
+            if k < 2 and nh == 0:                                 # explicit 0 for a BinaryRBM: not fixed by the property
+                nh = None
             args = (nv, nh) if k < 2 else (nv, nh, na)
             ok, s = ctx.call("constructor from sizes", ocase, lambda: CLS[k](*args, gpu=False))
             if not ok:
@@ -179,13 +235,21 @@ def one_history(ctx, hid, nops):
             m = mods[mi]
             before = snap(m)
             s = None
+            # the size arguments next to module= may disagree with the module: the module's sizes must win
+            nv_arg = int(m.num_visible) if rng.random() < 0.4 else int(rng.integers(1, 7))
+            kwargs = {}
+            if rng.random() < 0.5:
+                kwargs["num_hidden"] = int(rng.integers(1, 7))
+            if k == 2 and rng.random() < 0.5:
+                kwargs["num_aux"] = int(rng.integers(1, 5))
             try:
-                s = CLS[k](int(m.num_visible), module=m, gpu=False)
+                s = CLS[k](nv_arg, module=m, gpu=False, **kwargs)
             except Exception as e:
                 exc = e
+            ctx.count("ctor_module:args_%s" % ("agree" if nv_arg == int(m.num_visible) and not kwargs else "disagree"))
             states.append(s)
             ops.append([2, k, [0, mi]])
-            labels.append("%s(module=%d:%s)" % (CLS[k].__name__, mi, type(m).__name__))
+            labels.append("%s(%d,%s,module=%d:%s)" % (CLS[k].__name__, nv_arg, kwargs, mi, type(m).__name__))
             expect_ok = not (k == 2 and type(m).__name__ == "BinaryRBM")
             if expect_ok:
                 ctx.require("module= constructor is accepted", s is not None, ocase, "" if s is not None else repr(exc))
@@ -193,7 +257,10 @@ def one_history(ctx, hid, nops):
                 T.keep.append(s)
                 ctx.require("module=: rbm_am IS the supplied module", s.rbm_am is m, ocase)
                 ctx.require("module=: the module's parameters are unchanged", same(snap(m), before), ocase)
-                ctx.require("module=: sizes are the module's", int(s.num_visible) == int(m.num_visible) and int(s.num_hidden) == int(m.num_hidden), ocase)
+                ctx.require("module=: sizes are the module's",
+                            int(s.num_visible) == int(m.num_visible) and int(s.num_hidden) == int(m.num_hidden)
+                            and (k != 2 or int(s.num_aux) == int(m.num_aux)), ocase,
+                            {"state": [int(s.num_visible), int(s.num_hidden)], "module": [int(m.num_visible), int(m.num_hidden)], "args": [nv_arg, kwargs]})
                 if k:
                     ctx.require("module=: rbm_ph is a different object", s.rbm_ph is not m, ocase)
                     ctx.require("module=: rbm_ph shares no parameter storage with the module", not (ptrs(s.rbm_ph) & ptrs(m)), ocase)
@@ -239,13 +306,7 @@ def one_history(ctx, hid, nops):
             ops.append([4, j, weights_of(T, s.rbm_am), weights_of(T, s.rbm_ph) if len(s.networks) > 1 else []])
             labels.append("reinitialize(%d)" % j)
             for net in s.networks:
-                after = snap(getattr(s, net))
-                ctx.require("reinitialize keeps names and shapes (%s)" % net,
-                            [(n, t.shape) for n, t in after] == [(n, t.shape) for n, t in before[net]], ocase)
-                ctx.require("reinitialize redraws every weight tensor (%s)" % net,
-                            all(t.numel() == 0 or not torch.equal(t, t0) for (n, t), (_, t0) in zip(after, before[net]) if n.startswith("weights")), ocase)
-                ctx.require("reinitialize zeroes every bias (%s)" % net,
-                            all(bool((t == 0).all()) for n, t in after if "bias" in n), ocase)
+                check_reinitialised(ctx, net, before[net], snap(getattr(s, net)), ocase)
             ctx.count("reinitialize")
         else:
             continue
@@ -309,7 +370,13 @@ def fit_guard_cases(ctx):
                         rec = Rec()
                         rng0 = torch.get_rng_state()
                         exc = None
-                        kw = dict(epochs=1, pos_batch_size=3, k=1, lr=0.05, callbacks=[rec], optimizer=optimizer)
+                        built = []
+
+                        class RecOpt(optimizer):             # records its construction
+                            def __init__(self, *a, **k_):
+                                built.append(1)
+                                super().__init__(*a, **k_)
+                        kw = dict(epochs=1, pos_batch_size=3, k=1, lr=0.05, callbacks=[rec], optimizer=RecOpt)
                         if bases_given and k > 0:
                             kw["input_bases"] = bases
                         try:
@@ -320,11 +387,11 @@ def fit_guard_cases(ctx):
                                 "optimizer": optimizer.__name__}
                         ctx.case(case, nontrivial=(k > 0 and not bases_given))
                         neff, code = ints(m.call("fit_guard", k, 1 if bases_given else 0, 1 if stop else 0))
-                        kind = 0 if exc is None else (1 if isinstance(exc, ValueError) else 5)
-                        ctx.agree_exact("fit result kind", kind, code, case)
+                        ctx.agree_exact("fit raises", exc is not None, code != 0, case)
                         ctx.agree_exact("fit has effects", len(rec.ev) > 0, neff > 0, case)
                         if k > 0 and not bases_given:
-                            ctx.require("fit without bases raises ValueError", isinstance(exc, ValueError), case, repr(exc))
+                            ctx.require("fit without bases is refused (an exception is raised)", exc is not None, case, repr(exc))
+                            ctx.require("refused fit: no optimizer was constructed", built == [], case)
                             ctx.require("refused fit: no callback event", rec.ev == [], case, rec.ev[:5])
                             ctx.require("refused fit: parameters unchanged",
                                         all(same([(n, p.data) for n, p in getattr(s, net).named_parameters()], before[net]) for net in s.networks), case)
@@ -364,6 +431,13 @@ def aux_bias_cases(ctx):
             if not ok:
                 continue
             gg, pg, phg, bg = g
+            ok2, g2 = ctx.call("phase gradient functions, expand=False and 1-D forms", case, lambda: (
+                dm.rbm_ph.gamma_grad(sp, sp.flip(0), eta=-1, expand=False), dm.pi_grad(sp, sp.flip(0), phase=True, expand=False),
+                dm.rbm_ph.gamma_grad(sp[0], sp[-1], eta=-1, expand=False), dm.pi_grad(sp[0], sp[-1], phase=True, expand=False),
+                dm.rbm_ph.gamma_grad(sp, sp.flip(0), eta=+1, expand=True)))
+            if ok2:
+                for nm, t in zip(("gamma_grad expand=False", "pi_grad(phase) expand=False", "gamma_grad 1-D", "pi_grad(phase) 1-D", "gamma_grad eta=+1"), g2):
+                    ctx.require("%s: aux-bias block identically zero" % nm, bool((t[..., -na:] == 0).all()), case)
             ctx.require("gamma_grad: aux-bias block identically zero", bool((gg[..., -na:] == 0).all()), case)
             ctx.require("pi_grad(phase=True): aux-bias block identically zero", bool((pg[..., -na:] == 0).all()), case)
             ctx.require("ph_grads: aux-bias block identically zero", bool((phg[..., -na:] == 0).all()), case)
@@ -402,7 +476,7 @@ def shape_cases(ctx):
     m = ctx.get_model()
     for k in range(3):
         for nv in (1, 3):
-            for nh in (None, 0, 2, 4):
+            for nh in ((None, 0, 2, 4) if k == 2 else (None, 2, 4)):
                 for na in ((None, 0, 2) if k == 2 else (None,)):
                     args = (nv, nh) if k < 2 else (nv, nh, na)
                     case = {"shapes": CLS[k].__name__, "nv": nv, "nh": nh, "na": na}
@@ -419,6 +493,7 @@ def shape_cases(ctx):
 def run(ctx):
     shape_cases(ctx)
     fit_guard_cases(ctx)
+    reinit_cases(ctx)
     aux_bias_cases(ctx)
     n = 250 if ctx.thorough else 60
     lo, hi = (10, 24) if ctx.thorough else (6, 14)
